@@ -98,6 +98,26 @@ CLAIMED = {
         technique="symbolic execution of the Python source (own AST interpreter over z3) for the "
                   "constructor matrix; exhaustive enumeration of the version grid through the "
                   "interpreted selection code; native replay"),
+    "C16": dict(
+        text="exhaustive exploration of thread schedules at statement granularity up to a "
+             "pre-emption bound over the real Transport.send / disconnect / connection_lost / "
+             "connection_made / add_job / run_job source (modelled threads + baton, schedules are "
+             "path decisions); the solver decides the assertions over the symbolic write-failure "
+             "flag; counterexample schedules are replayed on the real code under sys.settrace",
+        note="granularity = statement boundaries of repository code (C-level operations and "
+             "attribute loads inside one statement are atomic); pre-emption budget 2 (quick) / 3; "
+             "the send lock is modelled by a scheduler lock; connections are recording fakes",
+        technique="bounded schedule enumeration by symbolic execution of the Python source with "
+                  "modelled threads (own AST interpreter over z3), native replay under settrace"),
+    "C20": dict(
+        text="symbolic execution of check_connection/_handle_i_version on a symbolic clock "
+             "(linear real arithmetic over event instants, reconnect timeout R and polling period "
+             "eps; no-op polls abstracted), of the three protocol classes' connection callbacks, "
+             "of stop() and of the threaded connect loops with scripted device factories",
+        note="event instants satisfy 0 < 4*eps < R and polls come at least every eps; pyserial "
+             "ReaderThread internals, serial_asyncio, the real asyncio loop, real sockets, the "
+             "asyncio connect loops and TCPTransport.run are outside; one known finding (watchdog "
+             "slack) is listed in known_findings.json"),
 }
 
 NOT_YET = "check not landed yet (build in progress); will be decided by the same solver-based engine"
